@@ -1,3 +1,5 @@
+import Std.Data.HashSet
+
 /-!
 # C14 — colocalisation coefficients and block shuffling
 (`pewlib.process.colocal`, `pewlib.process.calc.shuffle_blocks`)
@@ -418,5 +420,87 @@ def probSteps (x y : Img Rat) (mask : Nat → Nat → Bool) (b : Nat) (part : Bo
 def pearsonProbability (x y : Img Rat) (mask : Nat → Nat → Bool) (b : Nat) (part : Bool)
     (sigmas : List (List Nat)) : Option Rat :=
   probability ((probSteps x y mask b part sigmas).map (·.gt))
+
+/-! ## large images: the same specification relations, evaluated in (quasi-)linear time
+
+`specOutside` asks `idx.contains` for every pixel and `specBlocks` compares every selected output block with every
+selected input block: quadratic in the number of blocks, fine for the small boundary-class images, hopeless for
+images of ordinary laser-ablation size (a few hundred pixels a side, 10⁴..10⁶ blocks).  The definitions below decide
+the *same* relations (`PewTheorems/C14.lean`: `spec_outside_fast`, `spec_blocks_fast`) in one pass over the image:
+
+* `specOutsideFast` decides "pixel inside a selected block" from the block's mask cells instead of searching `idx`;
+* `specBlocksFast` puts the (visible part of the) selected input blocks into a hash set, once for every shape of
+  visible part that occurs (a block is only partly visible when pad mode has padded the image: at most four shapes),
+  and looks every selected output block up;
+* `specApplied` is the *certificate* form of the model comparison: block `idx[k]` of the output is block `nidx[k]` of
+  the working array, for every `k`.  Together with `specOutside` it pins every pixel of the output to the model's
+  `shuffleBlocks … nidx` (`applied_determines_output`), without computing the inverse index of `idx`. -/
+
+/-- the number of rows (columns) of block `F` along an axis of extent `n` that lie inside the image -/
+def visExt (n b F : Nat) : Nat := min b (n - F * b)
+
+/-- the pixels of block `(G0, G1)` of `A` over the box `v0 × v1`, row-major -/
+def blockKey (A : Nat → Nat → Rat) (b0 b1 v0 v1 G0 G1 : Nat) : List Rat :=
+  (pixels v0 v1).map (fun o => A (G0 * b0 + o.1) (G1 * b1 + o.2))
+
+/-- `specOutside`, deciding "inside a selected block" from the block's own mask cells -/
+def specOutsideFast (x out : Img Rat) (mask : Nat → Nat → Bool) (b0 b1 : Nat) (padMode part : Bool) : Bool :=
+  let p := prepare x mask b0 b1 padMode
+  let nb0 := nBlocks p.N0 b0
+  let nb1 := nBlocks p.N1 b1
+  (pixels x.n0 x.n1).all (fun q =>
+    (decide (q.1 / b0 < nb0) && decide (q.2 / b1 < nb1) && blockMask p.M b0 b1 part (q.1 / b0) (q.2 / b1))
+      || decide (out.get q.1 q.2 = x.get q.1 q.2))
+
+/-- `specBlocks` through a hash set of the selected input blocks (keyed by the shape of the visible part) -/
+def specBlocksFast (x out : Img Rat) (mask : Nat → Nat → Bool) (b0 b1 : Nat) (padMode part : Bool) : Bool :=
+  let p := prepare x mask b0 b1 padMode
+  let nb0 := nBlocks p.N0 b0
+  let nb1 := nBlocks p.N1 b1
+  let idx := selected p.M b0 b1 nb0 nb1 part
+  let vis := fun f => (visExt x.n0 b0 (f / nb1), visExt x.n1 b1 (f % nb1))
+  let classes := (idx.map vis).eraseDups
+  let keys := Std.HashSet.ofList (classes.flatMap (fun v =>
+    idx.map (fun g => (v, blockKey p.X b0 b1 v.1 v.2 (g / nb1) (g % nb1)))))
+  idx.all (fun f => keys.contains (vis f, blockKey out.get b0 b1 (vis f).1 (vis f).2 (f / nb1) (f % nb1)))
+
+/-- the certificate: (the visible part of) output block `idx[k]` is block `nidx[k]` of the working array -/
+def specApplied (x out : Img Rat) (mask : Nat → Nat → Bool) (b0 b1 : Nat) (padMode part : Bool)
+    (nidx : List Nat) : Bool :=
+  let p := prepare x mask b0 b1 padMode
+  let nb0 := nBlocks p.N0 b0
+  let nb1 := nBlocks p.N1 b1
+  let idx := selected p.M b0 b1 nb0 nb1 part
+  nidx.length == idx.length &&
+  (idx.zip nidx).all (fun fg =>
+    (pixels b0 b1).all (fun o =>
+      let i := fg.1 / nb1 * b0 + o.1
+      let j := fg.1 % nb1 * b1 + o.2
+      !(decide (i < x.n0) && decide (j < x.n1)) ||
+        decide (out.get i j = p.X (fg.2 / nb1 * b0 + o.1) (fg.2 % nb1 * b1 + o.2))))
+
+/-- **"a permutation of whole blocks"**: the selected blocks of the output are, as a multiset of whole blocks, the selected
+blocks of the working array -/
+def specBlockMultiset (x out : Img Rat) (mask : Nat → Nat → Bool) (b0 b1 : Nat) (padMode part : Bool) : Bool :=
+  let p := prepare x mask b0 b1 padMode
+  let nb0 := nBlocks p.N0 b0
+  let nb1 := nBlocks p.N1 b1
+  let idx := selected p.M b0 b1 nb0 nb1 part
+  (idx.map (fun f => blockKey out.get b0 b1 b0 b1 (f / nb1) (f % nb1))).isPerm
+    (idx.map (fun g => blockKey p.X b0 b1 b0 b1 (g / nb1) (g % nb1)))
+
+/-- is `nidx` a rearrangement of the ascending list `idx` (decided by sorting) -/
+def isPermOfSorted (nidx idx : List Nat) : Bool :=
+  nidx.mergeSort (fun a b => decide (a ≤ b)) == idx
+
+/-- `np.std(x) ** 2` as `mean(x²) - mean(x)²` (two sums; `var` as written subtracts the mean pixel by pixel, which
+for a few hundred thousand pixels means as many rational normalisations) -/
+def varFast (x : List Rat) : Rat := cov x x
+
+/-- the mean of integer pixel values (one integer sum) -/
+def meanI (l : List Int) : Rat := ((l.sum : Int) : Rat) / (l.length : Rat)
+
+/-- `cov` for integer-valued images: integer sums of the values and of their products -/
+def covI (x y : List Int) : Rat := meanI (List.zipWith (· * ·) x y) - meanI x * meanI y
 
 end Pew.Colocal
